@@ -13,7 +13,8 @@
    time, or scheduling) is NOT a theorem of this file: it is covered by the correspondence run
    only (same cases built repeatedly, in several threads and in child processes, compared byte
    for byte against each other and against [build_ops]). *)
-Require Import FstV.Base FstV.Builder FstV.Fst FstV.proofs.BuilderBasics.
+Require Import FstV.Base FstV.Builder FstV.CodecSpec FstV.Fst.
+Require Import FstV.proofs.BuilderInv FstV.proofs.BuilderBasics FstV.proofs.BuilderNoPanic.
 
 (* SetBuilder::insert(k) = raw add(k) and MapBuilder::insert(k, 0) = raw insert(k, 0) agree on
    every state reached from a new builder by calls none of which panicked (a Rust panic leaves no
@@ -92,6 +93,23 @@ Theorem C15_bytes_function_of_accepted : forall summer ty rows cols ops,
   build_ops summer ty rows cols (accepted_ops None ops).
 Proof. exact rejected_leave_no_trace_build. Qed.
 
+(* ---------- closed forms: no "no call panicked" premise ----------
+   within the byte / value bounds and the size budget of C01 over the accepted calls, no call
+   panics (C06_calls_never_panic), so: *)
+Theorem C15_add_eq_insert0_closed : forall ty rows cols ops k,
+  Forall (fun o => Forall (fun b => b < 256) (op_key o) /\ op_val o < U64) ops ->
+  size_ok_ops (accepted_ops None ops) ->
+  let b := fst (run_calls (new_builder ty rows cols) ops) in
+  b_last b <> Some k -> b_add b k = b_insert b k 0.
+Proof. exact add_eq_insert0_closed. Qed.
+
+Theorem C15_bytes_function_of_accepted_closed : forall summer ty rows cols ops,
+  Forall (fun o => Forall (fun b => b < 256) (op_key o) /\ op_val o < U64) ops ->
+  size_ok_ops (accepted_ops None ops) ->
+  b_finish summer (fst (run_calls (new_builder ty rows cols) ops)) =
+  build_ops summer ty rows cols (accepted_ops None ops).
+Proof. exact bytes_function_of_accepted_closed. Qed.
+
 (* non-vacuity: the same three pairs through single calls, through two extend calls, and through
    from_iter give the same (successful) bytes; set = map with zeros *)
 Example C15_nonvacuous :
@@ -124,4 +142,6 @@ Print Assumptions C15_build_set_eq.
 Print Assumptions C15_build_map_eq.
 Print Assumptions C15_build_set_eq_map0.
 Print Assumptions C15_bytes_function_of_accepted.
+Print Assumptions C15_add_eq_insert0_closed.
+Print Assumptions C15_bytes_function_of_accepted_closed.
 Print Assumptions C15_nonvacuous.
